@@ -91,9 +91,10 @@ def not_modified(req):
     Headers ETag, Content-Location is return from request.
     Date header will be set.
     """
+    headers = getattr(req, 'headers', {})   # SimpleRequest has no headers
     return NotModifiedResponse(
-            etag=req.headers.get('ETag'),
-            content_location=req.headers.get('Content-Location'),
+            etag=headers.get('ETag'),
+            content_location=headers.get('Content-Location'),
             date=time_to_http())
 
 
